@@ -43,7 +43,7 @@ fn be32(h: &[u8; 16], off: usize) -> u32 { ((h[off] as u32) << 24) | ((h[off + 1
 
 fn dead_fragment() -> pending_packet::FragmentRef { pending_packet::FragmentRef { packet: std::rc::Weak::new(), fragment_id: 0 } }
 
-//@h props=C10,C11,C02,C13 tier=quick timeout=1200 role=sync-emission
+//@h props=C10,C11,C02,C13 tier=quick timeout=1200 role=sync-emission also_quick=C02
 //@fn HalfConnection::emit_sync_frame, frame::Frame::write (sync)
 //@bound ANY sender state as far as emit_sync_frame reads it: frame ids (next, base) any, packet ids equal or one outstanding, pending/resend queue lengths in {0,1}, keepalive None or any interval, credit any isize, idle time and RTO any < 2^40
 //@assume crc::compute stubbed (constant); small constructor (4-slot windows)
@@ -206,7 +206,7 @@ fn o3_9_ack_frame_any_ids_fresh_connection() {
     std::mem::forget(hc);
 }
 
-//@h props=C01,C03 tier=quick timeout=1500 role=data-gate args=--no-memory-safety-checks
+//@h props=C01,C03 tier=quick timeout=1500 role=data-gate args=--no-memory-safety-checks cbmc=--max-field-sensitivity-array-size+512
 //@assume Kani pointer checks off in this functional obligation
 //@fn HalfConnection::{handle_data_frame, receive}, FrameAckQueue::{window_contains, mark_seen}, PacketReceiver::{handle_datagram, receive}
 //@bound fresh small connection (rx frame base 2^32-3, frame window 64; rx packet base 2^20-1); ONE data frame with ANY frame id carrying one deliverable 2-byte packet, then the SAME frame again (network duplicate), then receive()
